@@ -19,7 +19,7 @@ func init() {
 func bigU(v uint64) *big.Int { return new(big.Int).SetUint64(v) }
 
 func runC16(r *core.Run) {
-	r.Rule("limit configurations (each of mint max / max balance / melt max unset, small, exactly at the value the next request reaches, one below) x seeded histories that move the balance across the boundary in both directions; after every operation IssuedEcash/RedeemedEcash/TotalBalance/RetrieveMintInfo are compared with big-integer reference sums and boundary quote requests (incl. amounts 2^63-1, 2^63, 2^64-balance, 2^64-1) are judged: refusal is demanded above a limit, nuts.4.disabled must equal (balance >= max balance); non-trivial = distinct (configuration, operation index) points with a non-zero balance or a limit decision at the boundary")
+	r.Rule("limit configurations (each of mint max / max balance / melt max unset, small, exactly at the value the next request reaches, one below) x seeded histories that move the balance across the boundary in both directions; after every operation IssuedEcash/RedeemedEcash/TotalBalance/RetrieveMintInfo are compared with big-integer reference sums and boundary quote requests (incl. amounts 2^63-1, 2^63, 2^64-balance, 2^64-1) are judged: refusal is demanded above a limit, nuts.4.disabled must equal (balance >= max balance); in addition (beyond the stated quantifier) the scheduler enumerates the preemption-bounded DB-call interleavings of a mint request and a swap request carrying the same B_, judged by the same totals and by restore; non-trivial = distinct (configuration, operation index) points with a non-zero balance or a limit decision at the boundary")
 	r.Assume("the statement demands refusal above the limits, not acceptance below them: an unexpected refusal under a limit is an observation only")
 	nc, nops := pick(r, 12, 80), pick(r, 60, 200)
 	core.Parallel(nc, 8, func(ci int) {
@@ -164,6 +164,14 @@ func runC16(r *core.Run) {
 							r.Observe("melt-quote-refused-under-limit", fmt.Sprintf("%d sat, max %d: %v", sat, m, err))
 						}
 					}
+					// the mint's own invoice (a melt that would be settled internally) is no exception
+					if own, err := env.RequestMintQuote(m+1, ""); err == nil {
+						_, err := env.RequestMeltQuote(own.PaymentRequest, 0)
+						r.Count("melt_quote_limit_decisions", 1)
+						if err == nil {
+							r.Violate("melt-quote-accepted:above-melt-max:own-invoice", fmt.Sprintf("melt quote for the mint's own invoice of %d sat accepted, melt max %d", m+1, m), csig, nil)
+						}
+					}
 					// sub-sat invoice just above the limit
 					inv := world.NewExternalInvoice(m*1000 + 1)
 					if _, err := env.RequestMeltQuote(inv.Bolt11, 0); err == nil {
@@ -208,4 +216,7 @@ func runC16(r *core.Run) {
 		r.Count("operations", int64(s.NOps))
 		r.Sample("config", map[string]any{"config": sig, "limits": lim, "summary": s.Summary(), "final_balance": balance().String()})
 	})
+	if r.Violations() < 10 {
+		c16SharedOutput(r)
+	}
 }
